@@ -256,6 +256,12 @@ func runC15(c *sim.Ctx, t *testing.T) {
 			ops = append(ops, vfOp{kind: "state", mid: mid, msg: map[string]interface{}{"to": "captain", "update": map[string]interface{}{mid: map[string]interface{}{"state": st}}}})
 		case k == 2:
 			ops = append(ops, vfOp{kind: "spec", mid: mid, msg: map[string]interface{}{"to": "captain", "update": map[string]interface{}{mid: map[string]interface{}{"spec": map[string]interface{}{"inline": vfSpecJSON(1 + c.Intn(2, "version"))}}}}})
+		case k == 12 && !exists[mid] && c.Bool("badcreate"):
+			// the creation of a new machine fails (its spec does not compile) although the request
+			// carries a state: whatever is left of the attempt, reports and crew have to agree
+			bad := map[string]interface{}{"name": "bad", "nodes": map[string]interface{}{"start": map[string]interface{}{"action": map[string]interface{}{"interpreter": "no-such-interpreter", "source": "return {};"}}}}
+			ops = append(ops, vfOp{kind: "badcreate", mid: mid, msg: map[string]interface{}{"to": "captain", "update": map[string]interface{}{mid: map[string]interface{}{
+				"spec": map[string]interface{}{"inline": bad}, "state": map[string]interface{}{"node": "start", "bs": map[string]interface{}{"log": []interface{}{map[string]interface{}{"id": "seed"}}}}}}}})
 		case k == 12 && exists[mid]:
 			// an update whose specification does not compile (fault): whatever the crew makes of
 			// it, what it reports has to be what it did
